@@ -399,6 +399,10 @@ def rules(ctx):
     _CA.shallow_copy_mutation(ctx, "C12.shallow-copy", ("compilers/xunitary.py", "compilers/xcov.py", "compilers/xstrict.py", "compilers/gbs.py", "compilers/tdm.py", "compilers/compiler.py", "tdm/utils.py"))
     # the X-series compilers are built on GBS.compile and group_operations
     from . import c04 as _c04
+    from . import common_backend as _Bk
+    nu = _Bk.unitary_from_symplectic(ctx, "C12.block-sign", ("compilers/xunitary.py", "compilers/xcov.py", "compilers/xstrict.py"))
+    ctx.require(nu >= 1, "no unitary-from-symplectic extraction found in the X-series compilers")
+    ctx.floor("C12.block-sign", 1)
     ctx.shared(_c04.gbs_guards)
     ctx.shared(_c04.partition)
     ctx.shared(_c04.register_index)
